@@ -682,7 +682,10 @@ macro_rules! boolean_array_impl {
                 type Output = Self;
 
                 fn not(self) -> Self::Output {
-                    Self(self.0.not())
+                    let mut result = Self(self.0.not());
+                    // keep the padding bits beyond `BITS` zero, so the value stays canonical
+                    result.0[$bits..].fill(false);
+                    result
                 }
             }
 
